@@ -243,7 +243,10 @@ PROPS = {
                                                  "unchanged (non-integer bounds included)", module="native.explore_pool_fetcher"),
                  dict(kind="native_script", name="end to end with history: real BatteryManager next to the real PowerBoundsCalculator through "
                                                  "working-set changes and data updates; advertised powers admitted, inclusion bounds agree",
-                      module="native.explore_bounds_agreement")],
+                      module="native.explore_bounds_agreement"),
+                 dict(kind="native_script", name="'... so it can be distributed without entering any exclusion zone': the distribution of "
+                                                 "admitted requests (the bound clauses of C02 on the real algorithm)", module="native.explore_distribution",
+                      prop="C17")],
         level="proof",
         explanation="For symbolic (real-valued) bounds data: BatteryManager._get_bounds returns the documented closed forms, its "
                     "inclusion bounds are identical to the advertised ones and its exclusion zone lies inside the advertised one; "
